@@ -85,6 +85,7 @@ type Exec struct {
 	initMode bool
 	initPkg  *ssa.Package
 	obsTerms []obsTerm
+	byteGroups []byteGroup
 }
 
 type knownClass struct {
@@ -250,11 +251,26 @@ func (ex *Exec) modelFor(extra *Term) (SatResult, map[string]uint64) {
 		return Unknown, nil
 	}
 	if r == Sat {
+		if m == nil {
+			m = map[string]uint64{}
+		}
 		for k, v := range ex.choices {
 			m[k] = v
 		}
+		for _, g := range ex.byteGroups {
+			w := m[g.word]
+			for j, bn := range g.bytes {
+				m[bn] = (w >> uint(24-8*j)) & 0xff
+			}
+		}
 	}
 	return r, m
+}
+
+// byteGroup ties a 32-bit word variable to the four byte-sized inputs it stands for.
+type byteGroup struct {
+	word  string
+	bytes [4]string
 }
 
 // Assert is a proof obligation: sat(PC ∧ ¬c) must be unsat.
